@@ -2,4 +2,13 @@
 pub fn dump() {
     println!("def wdlHeightTotalCount : Nat := {}", wow_wdl::types::HeightMapTile::TOTAL_COUNT);
     println!("def wdlHolesMaskCount : Nat := {}", wow_wdl::types::HolesData::MASK_COUNT);
+    // MPQ block flags, header sizes, method bytes (C02: Gen = published values)
+    use wow_mpq::tables::BlockEntry as B;
+    println!("def mpqFlags : List Nat := [{}, {}, {}, {}, {}, {}, {}, {}, {}]", B::FLAG_IMPLODE, B::FLAG_COMPRESS, B::FLAG_ENCRYPTED,
+        B::FLAG_FIX_KEY, B::FLAG_PATCH_FILE, B::FLAG_SINGLE_UNIT, B::FLAG_DELETE_MARKER, B::FLAG_SECTOR_CRC, B::FLAG_EXISTS);
+    use wow_mpq::FormatVersion as V;
+    println!("def mpqHeaderSizes : List Nat := [{}, {}, {}, {}]", V::V1.header_size(), V::V2.header_size(), V::V3.header_size(), V::V4.header_size());
+    use wow_mpq::compression::flags as m;
+    println!("def mpqMethods : List Nat := [{}, {}, {}, {}, {}, {}, {}, {}, {}]", m::HUFFMAN, m::ZLIB, m::IMPLODE, m::PKWARE, m::BZIP2, m::SPARSE, m::ADPCM_MONO, m::ADPCM_STEREO, m::LZMA);
+    println!("def mpqTableKeys : List Nat := [{}, {}]", wow_mpq::crypto::hash_string("(hash table)", 0x300), wow_mpq::crypto::hash_string("(block table)", 0x300));
 }
